@@ -160,6 +160,8 @@ struct World {
 	kind: String,
 	manager: Option<AudioManager<VBackend>>,
 	parent: Option<TrackHandle>,
+	/// "tsound_s" / "nested_s": the parent is a spatial track (its listener is kept alive next to it)
+	sparent: Option<(kira::track::SpatialTrackHandle, kira::listener::ListenerHandle)>,
 	log: Log,
 	handles: Handles,
 	flags: Arc<Mutex<HashMap<u32, Arc<AtomicBool>>>>,
@@ -177,15 +179,17 @@ impl World {
 				let t = m.main_track();
 				(t.num_sounds() as i64, t.sound_capacity() as i64)
 			}
-			"tsound" => {
-				let p = self.parent.as_ref().unwrap();
-				(p.num_sounds() as i64, p.sound_capacity() as i64)
-			}
+			"tsound" => match (self.parent.as_ref(), self.sparent.as_ref()) {
+				(Some(p), _) => (p.num_sounds() as i64, p.sound_capacity() as i64),
+				(_, Some((p, _))) => (p.num_sounds() as i64, p.sound_capacity() as i64),
+				_ => unreachable!(),
+			},
 			"subtrack" => (m.num_sub_tracks() as i64, m.sub_track_capacity() as i64),
-			"nested" => {
-				let p = self.parent.as_ref().unwrap();
-				(p.num_sub_tracks() as i64, p.sub_track_capacity() as i64)
-			}
+			"nested" => match (self.parent.as_ref(), self.sparent.as_ref()) {
+				(Some(p), _) => (p.num_sub_tracks() as i64, p.sub_track_capacity() as i64),
+				(_, Some((p, _))) => (p.num_sub_tracks() as i64, p.sub_track_capacity() as i64),
+				_ => unreachable!(),
+			},
 			"send" => (m.num_send_tracks() as i64, m.send_track_capacity() as i64),
 			"clock" => (m.num_clocks() as i64, m.clock_capacity() as i64),
 			"modulator" => (m.num_modulators() as i64, m.modulator_capacity() as i64),
@@ -209,7 +213,11 @@ impl World {
 		};
 		let ok = match self.kind.as_str() {
 			"sound" => m.play(mk_sound(flag.clone())).is_ok(),
-			"tsound" => self.parent.as_mut().unwrap().play(mk_sound(flag.clone())).is_ok(),
+			"tsound" => match (self.parent.as_mut(), self.sparent.as_mut()) {
+				(Some(p), _) => p.play(mk_sound(flag.clone())).is_ok(),
+				(_, Some((p, _))) => p.play(mk_sound(flag.clone())).is_ok(),
+				_ => unreachable!(),
+			},
 			"subtrack" => match m.add_sub_track(TrackBuilder::new().with_built_effect(Box::new(
 				ProbeEffect { id: x, log: log.clone() },
 			))) {
@@ -219,9 +227,14 @@ impl World {
 				}
 				Err(_) => false,
 			},
-			"nested" => match self.parent.as_mut().unwrap().add_sub_track(
-				TrackBuilder::new().with_built_effect(Box::new(ProbeEffect { id: x, log: log.clone() })),
-			) {
+			"nested" => match {
+				let b = TrackBuilder::new().with_built_effect(Box::new(ProbeEffect { id: x, log: log.clone() }));
+				match (self.parent.as_mut(), self.sparent.as_mut()) {
+					(Some(p), _) => p.add_sub_track(b),
+					(_, Some((p, _))) => p.add_sub_track(b),
+					_ => unreachable!(),
+				}
+			} {
 				Ok(h) => {
 					self.handles.lock().unwrap().insert(x, Box::new(h));
 					true
@@ -306,7 +319,8 @@ impl Session {
 	fn new(kind: &str, n: usize) -> Session {
 		// "tsound_p" / "nested_p": as "tsound" / "nested", with the parent track paused before the history begins
 		let orig = kind;
-		let kind = orig.trim_end_matches("_p");
+		let spatial_parent = orig.ends_with("_s");
+		let kind = orig.trim_end_matches("_p").trim_end_matches("_s");
 		let kind_s = kind.to_string();
 		let log: Log = Default::default();
 		let handles: Handles = Default::default();
@@ -346,14 +360,23 @@ impl Session {
 					}))
 					.unwrap();
 			}
-			let parent = if k2 == "tsound" || k2 == "nested" {
-				Some(
-					manager
-						.add_sub_track(
-							TrackBuilder::new().sound_capacity(n).sub_track_capacity(n),
-						)
-						.unwrap(),
-				)
+			// (the capacity under test is n; the parent's other capacity differs from it on purpose)
+			let (sc, tc) = if k2 == "tsound" { (n, n + 2) } else { (n + 2, n) };
+			let parent = if (k2 == "tsound" || k2 == "nested") && !spatial_parent {
+				Some(manager.add_sub_track(TrackBuilder::new().sound_capacity(sc).sub_track_capacity(tc)).unwrap())
+			} else {
+				None
+			};
+			let sparent = if (k2 == "tsound" || k2 == "nested") && spatial_parent {
+				let l = manager.add_listener(glam::Vec3::ZERO, glam::Quat::IDENTITY).unwrap();
+				let t = manager
+					.add_spatial_sub_track(
+						l.id(),
+						glam::Vec3::ZERO,
+						kira::track::SpatialTrackBuilder::new().sound_capacity(sc).sub_track_capacity(tc),
+					)
+					.unwrap();
+				Some((t, l))
 			} else {
 				None
 			};
@@ -361,6 +384,7 @@ impl Session {
 				kind: k2,
 				manager: Some(manager),
 				parent,
+				sparent,
 				log: l2,
 				handles: h2,
 				flags: f2,
@@ -583,7 +607,7 @@ pub fn run_scenario(sc: &Value, t: &mut Tracer) {
 		let paused = s.gw.call(|w| json!(format!("{:?}", w.parent.as_ref().unwrap().state())));
 		t.ev(json!({"a": "tau", "parent": match paused { Status::Done(v) => v, _ => json!("?") }}));
 	}
-	let tag = kind_tag(kind.trim_end_matches("_p"));
+	let tag = kind_tag(kind.trim_end_matches("_p").trim_end_matches("_s"));
 	s.gw.ctl.set_tag(tag);
 	s.aw.ctl.set_tag(tag);
 	let mut drift = 0u64;
